@@ -311,7 +311,8 @@ func (s *Scanner) addPos(p int) {
 func (s *Scanner) skipQuote(quote rune) error {
 	var (
 		pos     = s.pos
-		escaped = s.BackslashEscapes || s.EscapedStringExt && s.pos > 0 && (s.input[s.pos-1] == 'E' || s.input[s.pos-1] == 'e')
+		// Backslash is not an escape character in back-quoted identifiers.
+		escaped = s.BackslashEscapes && quote != '`' || s.EscapedStringExt && s.pos > 0 && (s.input[s.pos-1] == 'E' || s.input[s.pos-1] == 'e')
 	)
 	for {
 		switch r := s.next(); {
